@@ -28,9 +28,18 @@ def _env():
     return jax, jnp, G, GI
 
 
-def build(g, G, GI, second_axis=False):
+def build(g, G, GI, second_axis=False, amended=False):
     splits = tuple(g["splits"])
     pad = tuple(g["padding"])
+    if amended:
+        # the same grid obtained by amending the grid without its last level: Grid(shape0, splits[:-1]).amend(splits[-1])
+        g0 = dict(g, splits=list(splits[:-1]), padding=list(pad[:-1]))
+        base = build(g0, G, GI, second_axis)
+        if g["kind"] == "healpix":
+            return base.amend(added_depth=1)
+        if g["kind"] == "open":
+            return base.amend(((splits[-1], 2),), ((pad[-1], 0),)) if second_axis else base.amend((splits[-1],), (pad[-1],))
+        return base.amend(((splits[-1], 2),)) if second_axis else base.amend((splits[-1],))
     if g["kind"] == "healpix":
         nside0 = int(round((g["shape0"] / 12) ** 0.5))
         return GI.HEALPixGrid(nside0=nside0, depth=len(splits))
@@ -48,8 +57,15 @@ def replay_grid(r, env):
     g = r["g"]
     out = []
     n = 0
-    for second in ((False, True) if g["kind"] != "healpix" else (False,)):
-        real = build(g, G, GI, second)
+    variants = [(False, False), (True, False)] if g["kind"] != "healpix" else [(False, False)]
+    if len(g["splits"]) >= 2:
+        variants += [(False, True)] + ([(True, True)] if g["kind"] != "healpix" else [])
+    for second, amended in variants:
+        try:
+            real = build(g, G, GI, second, amended)
+        except Exception as e:
+            out.append("%s raised %s: %s" % ("amend" if amended else "construction", type(e).__name__, str(e)[:120]))
+            continue
 
         def ix(i):
             return jnp.array([[i], [0]]) if second else jnp.array([i])
